@@ -11,7 +11,11 @@ pub fn classify(e: &anyhow::Error) -> &'static str {
 }
 pub fn classify_str(s: &str) -> &'static str {
     let s = s.to_lowercase();
-    if s.contains("unsupported address type") || s.contains("invalid address type") {
+    if s.contains("unsupported command status") {
+        "Other"
+    } else if s.contains("unsupported auth method") {
+        "BadAuth"
+    } else if s.contains("unsupported address type") || s.contains("invalid address type") {
         "BadAddrType"
     } else if s.contains("aead::error") || s == "aead::error" || s.contains("aead error") {
         "Aead"
